@@ -376,9 +376,12 @@ class Ctx:
                 hit.setdefault(matched["id"], [matched, 0])[1] += 1
             else:
                 real.append(v)
-        for fid, (f, n) in hit.items():
-            print("KNOWN-FINDING: property=%s %s [%s; %d matching case(s) this run]" %
-                  (self.id, f.get("what", ""), fid, n), flush=True)
+        # one line per LISTED finding (also when this run's sample did not reach it: the line says so)
+        for f in known:
+            n = hit.get(f["id"], [f, 0])[1]
+            print("KNOWN-FINDING: property=%s %s [%s; %s]" %
+                  (self.id, f.get("what", ""), f["id"],
+                   ("%d matching case(s) this run" % n) if n else "not reached by this run's sample (seed-dependent)"), flush=True)
         rc = 0
         replay_paths = []
         if real:
